@@ -382,7 +382,66 @@ class InterpBase(CtxMixin):
         if not broke:
             self.exec_block(node.orelse, env)
 
+    def index_while_as_for(self, node, env):
+        """`i = 0 ... while i < len(seq): x = seq[i]; BODY; i += 1` (i used nowhere else, no break/continue, seq and
+        the bound not assigned in BODY) is `for x in seq: BODY` followed by i = len(seq); returns the For node or None"""
+        t = node.test
+        if node.orelse or not (isinstance(t, ast.Compare) and len(t.ops) == 1 and isinstance(t.ops[0], ast.Lt)
+                               and isinstance(t.left, ast.Name)):
+            return None
+        i = t.left.id
+        body = node.body
+        if len(body) < 2:
+            return None
+        first, last = body[0], body[-1]
+        if not (isinstance(last, ast.AugAssign) and isinstance(last.op, ast.Add) and isinstance(last.target, ast.Name)
+                and last.target.id == i and isinstance(last.value, ast.Constant) and last.value.value == 1):
+            return None
+        if not (isinstance(first, ast.Assign) and len(first.targets) == 1 and isinstance(first.targets[0], ast.Name)
+                and isinstance(first.value, ast.Subscript) and isinstance(first.value.value, ast.Name)
+                and isinstance(first.value.slice, ast.Name) and first.value.slice.id == i):
+            return None
+        x, seq = first.targets[0].id, first.value.value.id
+        inner = body[1:-1]
+        bound_names = {n_.id for n_ in ast.walk(t.comparators[0]) if isinstance(n_, ast.Name)}
+        for st in inner:
+            for n_ in ast.walk(st):
+                if isinstance(n_, (ast.Break, ast.Continue, ast.Return)):
+                    return None
+                if isinstance(n_, ast.Name) and n_.id in (i, seq):
+                    return None      # the index and the sequence are used by the loop header statements only
+                if isinstance(n_, ast.Name) and isinstance(n_.ctx, ast.Store) and n_.id in ({seq, x} | bound_names):
+                    return None
+        try:
+            start = env.lookup(i)
+            sv = env.lookup(seq)
+        except KeyError:
+            return None
+        if not (isinstance(start, int) and not isinstance(start, bool) and start == 0):
+            return None
+        # the bound must be the length of the sequence
+        try:
+            bound = self.pure(lambda: self.eval(t.comparators[0], env))
+            ln = self.seq_len(sv)
+        except Exception:
+            return None
+        same = self.truth_term(self.eq_term(bound, ln)) if (is_intlike(bound) and is_intlike(ln)) else False
+        if same is not True and not (same is not False and self.check_sat(z3.Not(zbool(same))) == z3.unsat):
+            return None
+        fn = ast.For(target=ast.Name(id=x, ctx=ast.Store()), iter=ast.Name(id=seq, ctx=ast.Load()),
+                     body=inner or [ast.Pass()], orelse=[], type_comment=None)
+        ast.copy_location(fn, node)
+        ast.fix_missing_locations(fn)
+        fn.pyvc_from_while = node
+        return fn, i, ln
+
     def stmt_While(self, node, env):
+        conv = self.index_while_as_for(node, env) if self.fn_stack else None
+        if conv is not None:
+            fn, i, ln = conv
+            self.stmt_For(fn, env)
+            env.vars[i] = ln
+            return
         n = 0
         while self.truth(self.eval(node.test, env)):
             n += 1
